@@ -37,6 +37,12 @@ def check(repo: Repo, R) -> None:
     apps = pat.find("self.pkg.modules.append($PM)", fm.node)
     ids = pat.find("self.modules_by_id[id(module)] = $M", fm.node)
     nms = pat.find("self.modules_by_name[$N] = $M", fm.node)
+    # a module is entered in the by-id map as *its own* export only: every entry pairs the module with the proto-module built for it here
+    foreign = [c_ for c_, b_ in ids if shared.prov_text(fm.node, b_["M"], depth=1) != "ModuleMapping(module, pmod)"]
+    if foreign:
+        R.check(False, "C06.2-unique-names", key_of(fm, "own-export-only"), fm.at(foreign[0]), f"export_module files a module under the export of another one: `{ast.unparse(foreign[0])[:90]}`",
+                why="two distinct modules from equal generator calls (cache disabled or reset, a generator reading outside state) are exported as one: instances of the second are checked and wired against the first one's ports and widths")
+        ids = [(c_, b_) for c_, b_ in ids if c_ not in foreign]
     if not (len(loops) == 1 and len(apps) == 1 and len(ids) == 1 and len(nms) == 1):
         raise AnalysisError(f"idiom-unknown: instance loop / package append / cache stores not found in {fm.site}")
     i_inst, i_app, i_id, i_nm = loops[0], apps[0][0], ids[0][0], nms[0][0]
